@@ -904,8 +904,11 @@ sighandler_fn ivw_signal(int sig, sighandler_fn h)
 int ivw_pthread_sigmask(int how, const sigset_t *set, sigset_t *old)
 {
 	int r = pthread_sigmask(how, set, old);
-	if (env_thr.point && how == SIG_SETMASK)
-		env_thr.point("sigmask", 0);
+	if (env_thr.sigmask_changed && set) {
+		sigset_t now;
+		pthread_sigmask(SIG_SETMASK, NULL, &now);
+		env_thr.sigmask_changed(&now);
+	}
 	return r;
 }
 
